@@ -305,3 +305,42 @@ impl Expected {
 pub fn is_root_builtin(module: &str, name: &str) -> bool {
     (module == "$root" || module == "[export]$root") && name.starts_with('[')
 }
+
+
+/// For every function of the world, keyed by (core import module, function name): wit-parser's
+/// `find_futures_and_streams` list as (kind, type id index).  Imported functions use the interface
+/// module, exported ones the `[export]` module.
+pub fn payload_lists(resolve: &Resolve, world: WorldId) -> BTreeMap<(String, String), Vec<(String, usize)>> {
+    let mut out = BTreeMap::new();
+    let w = &resolve.worlds[world];
+    let mut add = |module: String, f: &Function| {
+        let list = f
+            .find_futures_and_streams(resolve)
+            .into_iter()
+            .map(|id| {
+                let k = match resolve.types[id].kind {
+                    TypeDefKind::Future(_) => "future",
+                    _ => "stream",
+                };
+                (k.to_string(), id.index())
+            })
+            .collect::<Vec<_>>();
+        out.insert((module, f.name.clone()), list);
+    };
+    for (exported, items) in [(false, &w.imports), (true, &w.exports)] {
+        let prefix = if exported { "[export]" } else { "" };
+        for (key, item) in items.iter() {
+            match item {
+                WorldItem::Function(f) => add(format!("{prefix}$root"), f),
+                WorldItem::Interface { id, .. } => {
+                    let m = format!("{prefix}{}", resolve.name_world_key(key));
+                    for (_, f) in &resolve.interfaces[*id].functions {
+                        add(m.clone(), f);
+                    }
+                }
+                WorldItem::Type { .. } => {}
+            }
+        }
+    }
+    out
+}
